@@ -7,8 +7,10 @@ Per generated grammar G and EVERY string w up to length n over G's alphabet (+ o
                            == implementation outcome                     [in Coq, vm_compute]
   kind 1 (property, Coq):  every returned tree t has wf_treeb G t, closed, lbl t = nt, yield t = w
                            (verified checker wf_treeb_spec / wf_closed_yield)  [in Coq]
-  kind 2 (property, Coq):  proved-sound membership procedure Lb agrees with accept/reject on all
-                           strings of length <= 2 (fuel-bounded: `true` is a proof of membership)
+  kind 2 (property, Coq):  proved-sound membership procedure Lb on all strings of length <= 2: an accepted
+                           string must have Lb = true (a PROOF of membership; fuel = height bound
+                           |N|*(|w|+1)+2 of an acyclic grammar), a rejected one must not have Lb = true at
+                           the small fuel (Lb = false is not a proof of non-membership)
   kind 3 (hypothesis):     forest_totalb holds on the chart of every EarleyParser.parse case (the
                            run-time-checked hypothesis of theorem C10_parse_sound_partial)
   python reference (all cases): accept <-> w in L(G, nt) by an independent least-fixpoint
@@ -93,6 +95,20 @@ def nullable_set(cg):
             if A not in N and any(all(s in N for s in a) for a in alts):
                 N.add(A); ch = True
     return N
+
+
+def specialised(cg, nt):
+    """the canonical grammar ISLaSolver.parse(inp, nt) hands to the parser"""
+    if nt == START:
+        return cg
+    g2 = dict(cg); g2[START] = [[nt]]
+    seen, todo = {START}, [START]
+    while todo:
+        for a in g2.get(todo.pop(), []):
+            for x in a:
+                if is_nt(x) and x not in seen:
+                    seen.add(x); todo.append(x)
+    return {k: v for k, v in g2.items() if k in seen}
 
 
 def infinitely_ambiguous(cg):
@@ -481,7 +497,8 @@ def run(run):
     gdefs, smeta = [], []
     hist = {"accept": 0, "SyntaxErr": 0, "other_exn": 0, "ambiguous(>1 tree)": 0, "eps_grammars": 0,
             "multistart_grammars": 0, "recstart_grammars": 0, "solver_mode": 0, "parse_on_mode": 0,
-            "list_grammars": 0, "corpus_grammars": 0, "trees_checked_yield": 0}
+            "list_grammars": 0, "corpus_grammars": 0, "trees_checked_yield": 0,
+            "solver_nt_skipped_cyclic_after_override": 0}
     maxlen_seen = 0
     prop_failures = []
     for gi, (g, opts) in enumerate(grammars):
@@ -516,6 +533,14 @@ def run(run):
             solver = ISLaSolver(g)
         except Exception:
             solver = None
+        # ISLaSolver.parse(w, nt) parses with the grammar in which <start> ::= nt replaces the rule of <start>
+        # (and unreachable rules are deleted).  If THAT grammar has a cyclic unit/nullable derivation it is
+        # infinitely ambiguous and outside the property's quantifier (like the grammars `acceptable` rejects).
+        solver_skip = set()
+        for nt in list(g)[1:]:
+            if infinitely_ambiguous(specialised(cg, nt)):
+                solver_skip.add(nt)
+                hist["solver_nt_skipped_cyclic_after_override"] += 1
         cases = []     # (mode, nt, w, outcome)
         for w in words:
             cases.append((0, START, w, impl_parse(g, w)))
@@ -525,6 +550,8 @@ def run(run):
                     hist["parse_on_mode"] += 1
                 if solver is not None:
                     for nt in list(g):
+                        if nt in solver_skip:
+                            continue
                         cases.append((2, nt, w, impl_solver_parse(solver, w, nt)))
                         hist["solver_mode"] += 1
         # membership profile per start symbol (for the non-trivial rule)
@@ -596,7 +623,9 @@ def run(run):
         "       | Ok ts => negb (match ts with [] => true | _ => false end) && "
         "                  forallb (fun t => wf_treeb G t && closedb t && str_eqb (lbl t) nt && str_eqb (yield t) w) ts "
         "       | Raise SyntaxErr => true | Raise _ => false end "
-        "| 2 => Bool.eqb (Lb LFUEL G nt w) (match r with Ok _ => true | _ => false end) "
+        "| 2 => match r with "
+        "       | Ok _ => if Lb LFUEL G nt w then true else Lb (Nat.min 18 (length G * (length w + 1) + 2)) G nt w "
+        "       | _ => negb (Lb LFUEL G nt w) end "
         f"| _ => match chart_of {g_bool(flags['fxA'])} FUEL (cgram G START) nt w with "
         "       | Ok ch => forest_totalb (cgram G START) w ch | Raise _ => true end end")
     disagreements, spec_fail_coq, forest_fail = [], [], []
